@@ -566,3 +566,45 @@ Proof.
     destruct IH as (RR & W2 & Ok2). split; [|split; assumption].
     econstructor; eassumption.
 Qed.
+
+(* ------------------------------------------------------------------ dispatcher-level corollaries *)
+Theorem lists_wrongtype_changes_nothing d now nowms n args hint d' :
+  db_wf d -> lists_ok d -> is_bpop_name n = false ->
+  lists_dispatch d now nowms n args hint = Some (err_wrongtype, d') ->
+  forall k, raw_view d' k = raw_view d k.
+Proof.
+  intros W Hok NB H. destruct (lists_step d now nowms n args hint _ d' W Hok NB H) as (c & RC & A & _).
+  exact (accepts_wrongtype n args c _ _ RC A).
+Qed.
+
+Theorem lists_frame d now nowms n args hint r d' c :
+  db_wf d -> lists_ok d -> is_bpop_name n = false ->
+  lists_dispatch d now nowms n args hint = Some (r, d') -> ref_clause n args = Some c ->
+  forall k, ~ In k (clause_keys c) -> raw_view d' k = raw_view d k.
+Proof.
+  intros W Hok NB H RC. destruct (lists_step d now nowms n args hint r d' W Hok NB H) as (c' & RC' & A & _).
+  rewrite RC in RC'. inversion RC'; subst c'. exact (accepts_frame c _ _ r A).
+Qed.
+
+(* the blocking forms: WRONGTYPE / frame at the first polling instant *)
+Theorem bpop_frame left d nowms args keys t r d' tend :
+  db_wf d -> lists_ok d -> bpop_parse args = Some (keys, t) ->
+  bpop_run left d nowms args = (r, d', tend) ->
+  forall k, ~ In k keys -> view d' ((nowms + 100) / 1000) k = view d ((nowms + 100) / 1000) k.
+Proof.
+  intros W Hok P H k N. pose proof (bpop_blocking left d nowms args keys t W Hok P) as BB.
+  cbv zeta in BB. set (t1 := (nowms + 100) / 1000) in *.
+  assert (IN : forall a k0 x l', first_ready left a keys = RdPop k0 x l' -> In k0 keys).
+  { intros a. clear. induction keys as [|k1 rest IH]; cbn [first_ready]; [discriminate|].
+    intros k0 x l'. destruct (as_list (a k1)); [|discriminate].
+    destruct (take_end left l) as [[x1 l1]|].
+    - intros E. inversion E; subst. left. reflexivity.
+    - intros E. right. eapply IH. exact E. }
+  destruct (first_ready left (view d t1) keys) as [| |k0 x l'] eqn:FR.
+  - rewrite H in BB. inversion BB; subst. reflexivity.
+  - destruct BB as (r1 & d1 & E & Sv & _). rewrite H in E. inversion E; subst.
+    unfold served in Sv. rewrite FR in Sv. destruct Sv as [_ U]. apply U.
+  - destruct BB as (r1 & d1 & E & Sv & _). rewrite H in E. inversion E; subst.
+    unfold served in Sv. rewrite FR in Sv. destruct Sv as (_ & _ & SE). apply SE.
+    intros [<-|[]]. apply N. eapply IN. exact FR.
+Qed.
